@@ -52,11 +52,12 @@ PROFILES = {
     'C08': dict(weights=_w(apply=8, fop=10, drop=14, dup=5, traverse=8,
                            gc=5, reorder=3, finalize=4, arm_final=4,
                            configure=1, arm=2, quant=2, let=2),
-                flavors=['autoref'], nv=(2, 7), steps=(20, 140), copy_copy=0.1),
+                flavors=['autoref'], nv=(2, 7), steps=(20, 140), copy_copy=0.1,
+                line_mode=dict(quick=0.1, thorough=0.15)),
     'C09': dict(weights=_w(apply=12, ite=4, fop=4, quant=5, let=6, cube=3,
                            var=6, find_or_add=2, add_expr=4, drop=5, gc=1,
                            swap=0, reorder=0, pairs=0, configure=1, arm=14,
-                           knobs=1, copy=2, load=1, dump=1, image=2),
+                           knobs=1, copy=3, load=1, dump=1, image=5),
                 flavors=['raw', 'autoref'], nv=(3, 9), steps=(20, 120),
                 dyn=True, m1_rate=0.1),
     'C10': dict(weights=_w(support=8, count=8, pick=10, apply=8, gc=1, swap=3, reorder=1),
@@ -175,6 +176,7 @@ def _make_cfg(prop, seed, tier='quick', idx=0):
         reject_kinds=P.get('reject_kinds'), probe_second=P.get('probe_second'),
         copy_copy=bool(P.get('copy_copy')) and r.random() < P['copy_copy'],
         sift_tiny=bool(P.get('sift_tiny')), doc_cases=doc_cases,
+        line_mode=bool(P.get('line_mode')) and r.random() < P['line_mode'].get(tier, 0.0),
     )
     if P.get('real_disk') and r.random() < P['real_disk'].get(tier, 0.0):
         cfg['real_disk'] = True
